@@ -31,6 +31,30 @@ fn p5<D>(deps: &D, &a: &i32, &(b, c): &(i32, i32)) -> i32 {
 fn p6<D>(deps: &D, p6: i32, other: i32) -> i32 {
     p6 - other
 }
+/// a parameter named like the function AFTER a destructured / wildcard parameter (every pass over
+/// the parameter list has to visit every parameter)
+#[entrait(P7)]
+fn p7<D>(deps: &D, S { a: x }: S, p7: i32) -> i32 {
+    x - p7
+}
+#[entrait(P8)]
+fn p8<D>(deps: &D, _: i32, (a, b): (i32, i32), p8: i32, _: i32) -> i32 {
+    a - b - p8
+}
+#[entrait(P9, no_deps)]
+fn p9(N(n): N, p9: i32) -> i32 {
+    n - p9
+}
+#[entrait(P10)]
+fn p10(deps: &u8, _: i32, p10: i32) -> i32 {
+    p10
+}
+#[entrait(pub PMod)]
+pub mod p_mod {
+    pub fn p11<D>(deps: &D, super::N(n): super::N, p11: i32) -> i32 {
+        n - p11
+    }
+}
 
 /// no_deps: the first parameter is an ordinary argument, with every binding mode
 #[entrait(NdMut, no_deps)]
